@@ -29,7 +29,7 @@ func (c05) Rule() string {
 		"{absent, unknown Any URL, right URL + garbage, empty message of right type, right type with repeated fields cut to 0/1, every other payload message type} x " +
 		"details {none, one fewer, as sent, extra} x message type {0,1,7} x multi-cause children {0,2} x carrier position {root, under known wrapper, under unknown wrapper, " +
 		"inside barrier payload, inside secondary payload, multi-cause branch} x form {natural, leaf/wrapper swapped}; " +
-		"part 2 (seeded): valid generated messages with a sequence of 1..3 wire faults at drawn positions (payload/details/message-type/hostile strings/family swap) and " +
+		"part 2 (seeded): valid generated messages with a sequence of 1..3 wire faults at drawn positions (payload/details/message-type/hostile strings/garbled reportable strings/family swap) and " +
 		"protobuf-level byte fuzz, kept only if they unmarshal and are structurally complete; " +
 		"distinct = distinct (family x payload fault x details x msgtype x children x carrier x form) cases plus distinct (shape x fault multiset) seeded runs; non-trivial = at least one fault applied"
 }
